@@ -198,7 +198,7 @@ LEVELS = {
             "Checked every run: both models = implementation on generated archives; unpacked tree vs logical tree on four destinations incl. os.FS, sizes across the 150 KiB threshold.",
             "Not modelled: goroutine schedule of the background writers, buffer pools (harness only)."),
     "C13": ("Proved over the pubsub/Open protocol model: a wait is released by emit or cancel and by nothing else and stays released; a successful Open returns a complete entry; failures close; no opener stays stuck; reader completion precedes cancellation handling.  Proved over the model of the reader's end (background writers, one-slot error channel, WaitGroup, final select; every interleaving): the reader returns nil only if no background write failed, it is never blocked for good, every step decreases a measure, hence it always returns (Done fires). "
-            "Checked every run: scripted pubsub schedules with real goroutines; archives of small files of which a chosen subset of background writes fails: Done fires and the reported error is what every interleaving of the model says; streamed archives with stalls, truncation, read errors, cancellation and failing destinations with 1..8 openers.",
+            "Checked every run: scripted pubsub schedules with real goroutines; archives of small files of which a chosen subset of background writes fails: Done fires and the reported error is what every interleaving of the model says; streamed archives with stalls, truncation, read errors, cancellation and failing destinations with 1..8 openers.; the background write of one small entry held until the next entry's begins, every entry then compared with the archive",
             "Go's scheduler and context package are trusted."),
     "C14": ("Proved: when the single failing store call fires inside Mkdir, Remove, Chmod, Chtimes or the Rename of a regular file the operation returns an error (and every record is unchanged for the first four); in every state a reported success of Mkdir/Remove/Chmod, of the Rename of a non-directory, of a non-empty Write/WriteAt and of OpenFile implies the record is (not) in the store; a rejected Set is reported; a failed Get is never mistaken for not-exist; the fault fires at most once; the model has no panic outcome. "
             "Checked every run: every history x every fault index, plain and transaction store: model = implementation; success despite a failed call only if result and store equal the failure-free ones; view = store afterwards.",
@@ -210,7 +210,7 @@ LEVELS = {
             "Checked every run: 800 (directory x page sequence, counts up to math.MaxInt) cases on mem, kv, mount, Sub, cache, tar, os; model = implementation; 100 cases where one child look-up of a page fails once and the caller reads on.",
             "Layers other than the key-value handle are oracle-only."),
     "C17": ("Proved: every operation on a closed handle fails with ErrClosed and changes nothing; handles are independent; close then closed. "
-            "Checked every run: histories mixing namespace changes with open handles: model = implementation, implementation = os.File.",
+            "Checked every run: histories mixing namespace changes with open handles: model = implementation, implementation = os.File; every method on a closed handle of every layer; a key-value FS over a store that retains the records it is given, the writer's handle closed and the file used through a second handle and by name.",
             "Refuted (known finding): a write/truncate/chmod through a handle whose path was removed or replaced resurrects or clobbers the name."),
     "C18": ("Proved over the transaction model: one result per call in call order; Get sees the store and earlier Sets of the transaction; a handler's error becomes the operation's error; nothing after Abort has an effect; the in-memory store's mutex is released exactly once by whatever call ends the transaction, including a Commit whose context is already cancelled; an ended transaction never touches the mutex, the store or the fatal-error flag again, whatever is still called on it and whoever holds the mutex by then; the serial fallback refuses such a Commit, holds nothing and leaves the store usable. "
             "Checked every run: 3000 transaction scripts model = implementation (mem store through the build-tagged constructor, and the serial fallback); a second transaction (read-only, read-write) started while one is live must wait and then see all its Sets -- also when an earlier transaction is ended a second time (Abort/Commit after Abort/Commit) meanwhile.",
